@@ -593,7 +593,7 @@ func runScenario(cfg Config, sc Scenario) *Result {
 				// code wrongly starts a second actor, in which case its Initialized delivery shows up as a gate)
 				select {
 				case <-returned:
-				case <-time.After(20 * time.Millisecond):
+				case <-time.After(2 * time.Second):
 				}
 			}
 		case "send":
